@@ -48,6 +48,18 @@ func c05Options(t *rapid.T, words []string) []database.SearchOptions {
 
 // respell changes the case of ASCII letters only (case-regular by construction).
 func respellASCII(t *rapid.T, q string) string {
+	// spacing variants are different queries (blanks are significant to the typo fallback):
+	// they must never be answered from each other's cache entry
+	switch rapid.IntRange(0, 9).Draw(t, "space-mode") {
+	case 0:
+		q = " " + q
+	case 1:
+		q = q + " "
+	case 2:
+		q = strings.Replace(q, " ", "  ", 1)
+	case 3:
+		q = strings.Replace(q, " ", "\t", 1)
+	}
 	mode := rapid.IntRange(0, 3).Draw(t, "case-mode")
 	switch mode {
 	case 0:
@@ -87,7 +99,7 @@ func c05DB(t *rapid.T, label string) []database.Command {
 
 func TestC05_Cache(t *testing.T) {
 	rec := stat.For("C05")
-	rec.Rule("rapid state machine over CachedDatabase / MonitoredDatabase: search(q, options) with q from a pool of 6 queries x ASCII case re-spellings and options from a pool of one-field deltas of a base set in every field (limit, boosts, pipeline-only/boost, fuzzy, threshold, NLP, term cap, all-platforms, platforms, no-cross), invalidate, enable/disable, cleanup, stats, update(commands'). Oracle after every search: ranked list (entry index, score bits) equals SearchUniversal on an independently loaded Database holding the current commands. Non-trivial = the sequence has a cache hit on a query searched before under a different option set or spelling, or a search after an update.")
+	rec.Rule("rapid state machine over CachedDatabase / MonitoredDatabase: search(q, options) with q from a pool of 6 queries x ASCII case re-spellings x spacing variants (leading / trailing / doubled blank, tab: distinct queries) and options from a pool of one-field deltas of a base set in every field (limit, boosts, pipeline-only/boost, fuzzy, threshold, NLP, term cap, all-platforms, platforms, no-cross), invalidate, enable/disable, cleanup, stats, update(commands'). Oracle after every search: ranked list (entry index, score bits) equals SearchUniversal on an independently loaded Database holding the current commands. Non-trivial = the sequence has a cache hit on a query searched before under a different option set or spelling, or a search after an update.")
 	rec.RequireShare("delta-repeat-hit", 0.25)
 	rapid.Check(t, func(t *rapid.T) {
 		cmds := c05DB(t, "cmds")
